@@ -28,6 +28,13 @@ func job(id, pkg, fn string, args ...int64) *sym.Job {
 	return &sym.Job{ID: id, Harness: mod + "/internal/" + pkg + "." + fn, Args: args, ValidatePaths: 2}
 }
 
+// arith marks a job as division/multiplication heavy: cross-check on z3 4.8.12
+// (cvc5's bit-blaster needs minutes on 64-bit division).
+func arith(j *sym.Job) *sym.Job {
+	j.Cross = "z3"
+	return j
+}
+
 func neg(j *sym.Job) *sym.Job {
 	j.ExpectViolation = true
 	j.ValidatePaths = 0
@@ -62,6 +69,25 @@ func propC09() *Prop {
 		Jobs: func(tier string) []*sym.Job {
 			var js []*sym.Job
 			js = append(js, job("C09a/invariant", "ratelimiter", "VerifC09Invariant"))
+			for i := int64(1); i <= tierPick(tier, 2, 3); i++ {
+				js = append(js, job(fmt.Sprintf("C09b/window[k=%d,any refill]", i), "ratelimiter", "VerifC09Window", i, 1, 0))
+			}
+			for i := int64(3); i <= tierPick(tier, 3, 4); i++ {
+				js = append(js, job(fmt.Sprintf("C09b/window[k=%d,refill 1s|3s]", i), "ratelimiter", "VerifC09Window", i, 1, 1))
+			}
+			js = append(js, neg(job("C09b/window-negative-twin[k=2,no +1]", "ratelimiter", "VerifC09Window", 2, 0, 0)))
+			for m := int64(1); m <= 5; m++ {
+				js = append(js, job(fmt.Sprintf("C09c/burst[max=%d]", m), "ratelimiter", "VerifC09Burst", m))
+			}
+			for i := int64(1); i <= tierPick(tier, 3, 5); i++ {
+				js = append(js, job(fmt.Sprintf("C09d/idle[k=%d]", i), "ratelimiter", "VerifC09Idle", i))
+			}
+			js = append(js, job("C09e/isolation[k=2,any refill]", "ratelimiter", "VerifC09Isolation", 2, 0))
+			js = append(js, job(fmt.Sprintf("C09e/isolation[k=%d,refill 1s|3s]", tierPick(tier, 3, 4)), "ratelimiter", "VerifC09Isolation", tierPick(tier, 3, 4), 1))
+			js = append(js, job("C09h/cleanup", "ratelimiter", "VerifC09Cleanup"))
+			for _, j := range js {
+				arith(j)
+			}
 			return js
 		},
 		Assumptions: commonAssumptions,
